@@ -116,10 +116,10 @@ Proof.
   - rewrite H2. reflexivity.
 Qed.
 
-Lemma view_key_inj nm : forall nm' v v',
-  nocolon nm = true -> nocolon nm' = true -> view_key nm v = view_key nm' v' -> nm = nm' /\ v = v'.
+Lemma str_key_inj nm : forall nm' v v',
+  nocolon nm = true -> nocolon nm' = true -> nm ++ COLON :: v = nm' ++ COLON :: v' -> nm = nm' /\ v = v'.
 Proof.
-  unfold view_key. induction nm as [|x nm IH]; intros [|y nm'] v v' H1 H2 E; simpl in E.
+  induction nm as [|x nm IH]; intros [|y nm'] v v' H1 H2 E; simpl in E.
   - inversion E. auto.
   - inversion E; subst. apply nocolon_cons in H2 as [H2 _]. congruence.
   - inversion E; subst. apply nocolon_cons in H1 as [H1 _]. congruence.
@@ -129,6 +129,38 @@ Qed.
 
 Lemma nocolon_defname l : nocolon l = true -> nocolon (defname l) = true.
 Proof. destruct l; simpl; auto. Qed.
+
+(** the key determines (layout, view): always for the current key, for the old string key when
+    the layout names contain no ':' *)
+Definition kok (fl : flavour) (nm : bytes) : Prop := inj_key fl = true \/ nocolon nm = true.
+
+Lemma kok_defname fl l : kok fl l -> kok fl (defname l).
+Proof. intros [H|H]; [left|right]; auto. apply nocolon_defname. exact H. Qed.
+
+Lemma view_key_inj fl nm nm' v v' :
+  kok fl nm -> kok fl nm' -> view_key fl nm v = view_key fl nm' v' -> nm = nm' /\ v = v'.
+Proof.
+  unfold view_key, kok. destruct (inj_key fl); intros H1 H2 E.
+  - inversion E. auto.
+  - destruct H1 as [H1|H1]; try discriminate. destruct H2 as [H2|H2]; try discriminate.
+    inversion E. eapply str_key_inj; eauto.
+Qed.
+
+Lemma vkey_eqb_spec a b : vkey_eqb a b = true -> a = b.
+Proof.
+  destruct a, b; simpl; try discriminate.
+  - intros H. apply bytes_eqb_spec in H. congruence.
+  - intros H. apply andb_true_iff in H as [H1 H2].
+    apply bytes_eqb_spec in H1. apply bytes_eqb_spec in H2. congruence.
+Qed.
+
+Lemma vassoc_In {A} k (l : list (vkey * A)) a : vassoc k l = Some a -> In (k, a) l.
+Proof.
+  induction l as [|[k' a'] l IH]; simpl; try discriminate.
+  destruct (vkey_eqb k' k) eqn:E.
+  - intros H. inversion H; subst. apply vkey_eqb_spec in E. subst. left. reflexivity.
+  - intros H. right. auto.
+Qed.
 
 Lemma assoc_In {A} k (l : list (bytes * A)) a : assoc k l = Some a -> In (k, a) l.
 Proof.
@@ -181,7 +213,7 @@ Record PInv (fl : flavour) (c : bool) (fs : tfs) (p : pstate) : Prop := {
   pi_base : forall i, c_base p = Some i -> exists d, base_spec fs = Some d /\ good_obj fl p i d;
   pi_lay : forall k i, In (k, i) (c_lay p) -> exists d, layout_spec fs k = Some d /\ good_obj fl p i d;
   pi_view : forall k i, In (k, i) (c_view p) ->
-            exists nm v d, nocolon nm = true /\ k = view_key nm v /\ view_spec fs nm v = Some d /\ has_defs p i d;
+            exists nm v d, kok fl nm /\ k = view_key fl nm v /\ view_spec fs nm v = Some d /\ has_defs p i d;
   pi_sep : html fl = true -> forall k i, In (k, i) (c_view p) -> ~ protected p i
 }.
 
@@ -256,9 +288,9 @@ Proof.
 Qed.
 
 Lemma PInv_set_view fl fs p nm v i d :
-  PInv fl true fs p -> nocolon nm = true -> view_spec fs nm v = Some d -> has_defs p i d ->
+  PInv fl true fs p -> kok fl nm -> view_spec fs nm v = Some d -> has_defs p i d ->
   (html fl = true -> ~ protected p i) ->
-  PInv fl true fs (set_view (view_key nm v) i p).
+  PInv fl true fs (set_view (view_key fl nm v) i p).
 Proof.
   intros I Hc Hs Hg Hf. split; simpl; try discriminate.
   - apply (pi_base _ _ _ _ I).
@@ -360,8 +392,8 @@ Proof.
 Qed.
 
 Lemma post_alloc_view fl c fs p nm v d (cond : bool) :
-  PInv fl c fs p -> nocolon nm = true -> view_spec fs nm v = Some d -> (cond = true -> c = true) ->
-  let p' := cache_if cond (set_view (view_key nm v) (length (heap p))) (newobj d p) in
+  PInv fl c fs p -> kok fl nm -> view_spec fs nm v = Some d -> (cond = true -> c = true) ->
+  let p' := cache_if cond (set_view (view_key fl nm v) (length (heap p))) (newobj d p) in
   PInv fl c fs p' /\ grows fl p p' /\ has_defs p' (length (heap p)) d /\ ~ protected p' (length (heap p)).
 Proof.
   intros I Hn Hs Hc. assert (I1 : PInv fl c fs (newobj d p)) by (apply PInv_heap; assumption).
@@ -468,8 +500,8 @@ Definition unprot (fl : flavour) (p : pstate) (r : res nat) : Prop :=
   html fl = true -> forall i, r = Ok i -> ~ protected p i.
 
 Lemma build_view_post fl c fs nm v ly p dl p' r :
-  PInv fl c fs p -> nocolon nm = true -> layout_spec fs nm = Some dl -> good_obj fl p ly dl ->
-  build_view fl c fs (view_key nm v) v ly p = (p', r) ->
+  PInv fl c fs p -> kok fl nm -> layout_spec fs nm = Some dl -> good_obj fl p ly dl ->
+  build_view fl c fs (view_key fl nm v) v ly p = (p', r) ->
   PInv fl c fs p' /\ grows fl p p' /\ rok has_defs p' (view_spec fs nm v) r /\ unprot fl p' r.
 Proof.
   intros I Hn Hl Gl H. unfold build_view in H.
@@ -503,20 +535,20 @@ Definition view_spec_req (fs : tfs) (l v : bytes) : option defs :=
   match v with [] => None | _ => view_spec fs (defname l) v end.
 
 Lemma get_view_post fl c fs l v p p' r :
-  PInv fl c fs p -> nocolon l = true -> get_view fl c fs l v p = (p', r) ->
+  PInv fl c fs p -> kok fl l -> get_view fl c fs l v p = (p', r) ->
   PInv fl c fs p' /\ grows fl p p' /\ rok has_defs p' (view_spec_req fs l v) r /\ unprot fl p' r.
 Proof.
-  intros I Hn H. unfold get_view in H. apply nocolon_defname in Hn.
+  intros I Hn H. unfold get_view in H. apply kok_defname in Hn.
   destruct v as [|x v].
   - inversion H; subst. split; [exact I|split; [apply grows_refl|split]]. reflexivity.
     intros _ i E. discriminate.
   - unfold view_spec_req. set (vv := x :: v) in *.
-    destruct (assoc (view_key (defname l) vv) (c_view p)) as [i|] eqn:Hc.
+    destruct (vassoc (view_key fl (defname l) vv) (c_view p)) as [i|] eqn:Hc.
     + inversion H; subst. split; [exact I|split; [apply grows_refl|split]].
-      * simpl. apply assoc_In in Hc.
+      * simpl. apply vassoc_In in Hc.
         destruct (pi_view _ _ _ _ I _ _ Hc) as (nm' & v' & d & H1 & H2 & H3 & H4).
-        destruct (view_key_inj _ _ _ _ Hn H1 H2) as [-> ->]. exists d. auto.
-      * intros Hh j E. inversion E; subst. apply assoc_In in Hc. apply (pi_sep _ _ _ _ I Hh _ _ Hc).
+        destruct (view_key_inj _ _ _ _ _ Hn H1 H2) as [-> ->]. exists d. auto.
+      * intros Hh j E. inversion E; subst. apply vassoc_In in Hc. apply (pi_sep _ _ _ _ I Hh _ _ Hc).
     + destruct (get_layout fl c fs (defname l) p) as [p1 rl] eqn:Hg.
       destruct (get_layout_post _ _ _ _ _ _ _ I Hg) as (I1 & G1 & R1).
       destruct rl as [ly| |]; simpl in R1.
@@ -538,7 +570,7 @@ Proof.
 Qed.
 
 Lemma handout_post fl c fs p0 p1 r spec p' r' :
-  good fl -> PInv fl c fs p1 -> grows fl p0 p1 -> rok (good_obj fl) p1 spec r ->
+  good_clone fl -> PInv fl c fs p1 -> grows fl p0 p1 -> rok (good_obj fl) p1 spec r ->
   handout fl c (p1, r) = (p', r') ->
   PInv fl c fs p' /\ grows fl p0 p' /\ rok has_defs p' spec r' /\ unprot fl p' r'.
 Proof.
@@ -682,8 +714,11 @@ Proof.
       apply (U Hh i eq_refl).
 Qed.
 
+Definition qok (fl : flavour) (q : req) : Prop := inj_key fl = true \/ req_ok q = true.
+Definition qsok (fl : flavour) (qs : list req) : Prop := inj_key fl = true \/ forallb req_ok qs = true.
+
 Lemma step_req_post fl c fs s q :
-  good fl -> SInv fl c fs s -> req_ok q = true ->
+  good_clone fl -> SInv fl c fs s -> qok fl q ->
   SInv fl c fs (step_req fl c fs s q) /\
   sobs (step_req fl c fs s q) = sobs s ++ [spec_req fs (sobs s) q].
 Proof.
@@ -699,7 +734,7 @@ Proof.
     destruct (handout_post _ _ _ _ _ _ _ _ _ Gf I1 G1 R1 Hh) as (I2 & G2 & R2 & U2).
     apply (record_post _ _ _ _ _ _ _ S I2 G2 R2 U2).
   - unfold req_view. destruct (get_view fl c fs l v (sp s)) as [p' r'] eqn:Hg.
-    simpl in Hq. destruct (get_view_post _ _ _ _ _ _ _ _ I Hq Hg) as (I2 & G2 & R2 & U2).
+    destruct (get_view_post _ _ _ _ _ _ _ _ I Hq Hg) as (I2 & G2 & R2 & U2).
     destruct (record_post _ _ _ _ _ _ _ S I2 G2 R2 U2) as (A & B). split; auto.
     rewrite B. unfold view_spec_req. destruct v; reflexivity.
   - destruct (nth_error (sres s) k) as [[i|]|] eqn:Hk.
@@ -767,21 +802,24 @@ Qed.
 
 Definition spec_step (fs : tfs) (prev : list obs) (q : req) : list obs := prev ++ [spec_req fs prev q].
 
-Lemma run_from_spec fl c fs qs : good fl -> forall s,
-  SInv fl c fs s -> forallb req_ok qs = true ->
+Lemma run_from_spec fl c fs qs : good_clone fl -> forall s,
+  SInv fl c fs s -> qsok fl qs ->
   SInv fl c fs (fold_left (step_req fl c fs) qs s) /\
   sobs (fold_left (step_req fl c fs) qs s) = fold_left (spec_step fs) qs (sobs s).
 Proof.
   intros Gf. induction qs as [|q qs IH]; intros s S H; simpl in *.
   - auto.
-  - apply andb_true_iff in H as [H1 H2].
+  - assert (H1 : qok fl q /\ qsok fl qs).
+    { destruct H as [H|H]; [split; left; exact H|].
+      apply andb_true_iff in H as [A B]. split; right; assumption. }
+    destruct H1 as [H1 H2].
     destruct (step_req_post fl c fs s q Gf S H1) as (S' & E).
     destruct (IH _ S' H2) as (S'' & E'). split; auto. rewrite E', E. reflexivity.
 Qed.
 
 (** Every answer of a provider (html or text, caching on or off) is the specified one. *)
 Theorem run_spec fl c fs qs :
-  good fl -> forallb req_ok qs = true -> run_obs fl c fs qs = spec_run fs qs.
+  good_clone fl -> qsok fl qs -> run_obs fl c fs qs = spec_run fs qs.
 Proof.
   intros Gf H. unfold run_obs, run, spec_run.
   destruct (run_from_spec fl c fs qs Gf sinit (SInv_init fl c fs) H) as (_ & E).
@@ -818,7 +856,7 @@ Qed.
 
 (** The answer to the i-th request (not an Execute) depends on the file set only. *)
 Theorem answers_pure fl c fs qs i q :
-  good fl -> forallb req_ok qs = true -> nth_error qs i = Some q -> pure_req q = true ->
+  good_clone fl -> qsok fl qs -> nth_error qs i = Some q -> pure_req q = true ->
   nth_error (run_obs fl c fs qs) i = Some (spec_req fs [] q).
 Proof.
   intros Gf H Hi Hp. rewrite (run_spec fl c fs qs Gf H). unfold spec_run.
@@ -863,7 +901,7 @@ Proof.
       destruct (Nat.eqb (lock_of lv) lk) eqn:E; simpl; auto.
       apply Nat.eqb_eq in E. subst. auto.
     + inversion H; subst; clear H. rewrite !holdsW_cons, !holdsR_cons. simpl. auto.
-    + destruct (cache_read lv p).
+    + destruct (cache_read fl lv p).
       * inversion H; subst; clear H.
         destruct (ret_holds' q (Ok n) lv PReadU rest lk) as [A B]. split; intros X; left; auto.
       * inversion H; subst; clear H. rewrite !holdsW_cons, !holdsR_cons. simpl. auto.
@@ -876,7 +914,7 @@ Proof.
       rewrite !andb_false_r, andb_true_r. simpl. split; auto.
       destruct (Nat.eqb (lock_of lv) lk) eqn:E; simpl; auto.
       apply Nat.eqb_eq in E. subst. auto.
-    + destruct (cache_read lv p).
+    + destruct (cache_read fl lv p).
       * inversion H; subst; clear H. rewrite !holdsW_cons, !holdsR_cons. simpl. auto.
       * destruct lv; inversion H; subst; clear H; rewrite !holdsW_cons, !holdsR_cons; simpl;
           unfold start; destruct (locked_fast fl); simpl; rewrite ?andb_false_r; simpl; auto.
@@ -978,7 +1016,7 @@ Proof.
     + inversion H; subst. exact Nr.
     + destruct hit; inversion H; subst. apply ret_noU; auto. exact Nr.
     + inversion H; subst. exact Nr.
-    + destruct (cache_read lv p).
+    + destruct (cache_read fl lv p).
       * inversion H; subst. exact Nr.
       * destruct lv; inversion H; subst; unfold noU in *; simpl in *; unfold start; rewrite ?Hl; simpl; auto.
     + destruct (build fl c fs lv sub p). inversion H; subst. exact Nr.
@@ -1128,7 +1166,7 @@ Fixpoint chain_ok (fs : tfs) (lvtop : level) (rest : list frame) (q : creq) : Pr
 Definition thread_ok (fl : flavour) (fs : tfs) (p : pstate) (th : thread) : Prop :=
   match th with
   | TRun q [] => False
-  | TRun q ((lv, ph) :: rest) => creq_ok q = true /\ frame_ok fl fs p (lv, ph) /\ chain_ok fs lv rest q
+  | TRun q ((lv, ph) :: rest) => (inj_key fl = true \/ creq_ok q = true) /\ frame_ok fl fs p (lv, ph) /\ chain_ok fs lv rest q
   | THand q r => rok (good_obj fl) p (creq_specd fs q) r /\ (match q with CView _ _ => False | _ => True end)
   | TDone q r => rok has_defs p (creq_specd fs q) r
   end.
@@ -1158,24 +1196,24 @@ Proof.
   - apply rok_ext. intros i d. apply has_defs_ext. exact H.
 Qed.
 
-Lemma chain_LvV fs nm v rest q :
-  chain_ok fs (LvV nm v) rest q -> creq_ok q = true -> nocolon nm = true.
+Lemma chain_LvV fl fs nm v rest q :
+  chain_ok fs (LvV nm v) rest q -> (inj_key fl = true \/ creq_ok q = true) -> kok fl nm.
 Proof.
   destruct rest as [|[lv' ph'] rest']; simpl.
   - intros [E _] H. destruct q as [|l|l v']; simpl in E; try discriminate.
-    inversion E; subst. simpl in H. apply nocolon_defname. exact H.
+    inversion E; subst. simpl in H. apply kok_defname. exact H.
   - intros (_ & E & _). destruct lv'; simpl in E; discriminate.
 Qed.
 
 Lemma cache_read_ok fl c fs lv p i :
-  PInv fl c fs p -> (forall nm v, lv = LvV nm v -> nocolon nm = true) ->
-  cache_read lv p = Some i -> rokP fl fs lv p (Ok i).
+  PInv fl c fs p -> (forall nm v, lv = LvV nm v -> kok fl nm) ->
+  cache_read fl lv p = Some i -> rokP fl fs lv p (Ok i).
 Proof.
   intros I Hn H. destruct lv as [|nm|nm v]; simpl in *.
   - apply (pi_base _ _ _ _ I _ H).
   - apply (pi_lay _ _ _ _ I _ _ (assoc_In _ _ _ H)).
-  - apply assoc_In in H. destruct (pi_view _ _ _ _ I _ _ H) as (nm' & v' & d & H1 & H2 & H3 & H4).
-    destruct (view_key_inj _ _ _ _ (Hn _ _ eq_refl) H1 H2) as [-> ->]. exists d. auto.
+  - apply vassoc_In in H. destruct (pi_view _ _ _ _ I _ _ H) as (nm' & v' & d & H1 & H2 & H3 & H4).
+    destruct (view_key_inj _ _ _ _ _ (Hn _ _ eq_refl) H1 H2) as [-> ->]. exists d. auto.
 Qed.
 
 Lemma level_spec_sub_none fs lv lv' : sub lv' = Some lv -> level_spec fs lv = None -> level_spec fs lv' = None.
@@ -1186,7 +1224,7 @@ Proof.
 Qed.
 
 Lemma ret_ok fl fs p q r lv rest :
-  creq_ok q = true -> rokP fl fs lv p r -> chain_ok fs lv rest q -> thread_ok fl fs p (ret q r rest).
+  (inj_key fl = true \/ creq_ok q = true) -> rokP fl fs lv p r -> chain_ok fs lv rest q -> thread_ok fl fs p (ret q r rest).
 Proof.
   intros Hq R C. unfold ret. destruct rest as [|[lv' ph'] rest']; simpl in C.
   - destruct C as [E1 E2]. subst lv. unfold rokP in R. rewrite E2 in R.
@@ -1224,13 +1262,13 @@ Lemma tstep_ok fl c fs p th p' th' a :
 Proof.
   intros I T H. destruct th as [q st|q r|q r]; simpl in H; try discriminate.
   - destruct st as [|[lv ph] rest]; try discriminate. destruct T as (Hq & F & C).
-    assert (Hn : forall nm v, lv = LvV nm v -> nocolon nm = true).
+    assert (Hn : forall nm v, lv = LvV nm v -> kok fl nm).
     { intros nm v E. subst lv. eapply chain_LvV; eauto. }
     destruct ph as [| | |hit| | | |sb|r].
     + inversion H; subst. split; [exact I|split; [apply hext_refl|]]. simpl. auto.
     + inversion H; subst. split; [exact I|split; [apply hext_refl|]]. simpl. repeat split; auto.
-      destruct (cache_read lv p') eqn:E; auto. eapply cache_read_ok; eauto.
-    + destruct (cache_read lv p) eqn:E.
+      destruct (cache_read fl lv p') eqn:E; auto. eapply cache_read_ok; eauto.
+    + destruct (cache_read fl lv p) eqn:E.
       * inversion H; subst. split; [exact I|split; [apply hext_refl|]].
         apply ret_ok with (lv := lv); auto. eapply cache_read_ok; eauto.
       * inversion H; subst. split; [exact I|split; [apply hext_refl|]]. simpl. auto.
@@ -1239,7 +1277,7 @@ Proof.
         apply ret_ok with (lv := lv); auto.
       * inversion H; subst. split; [exact I|split; [apply hext_refl|]]. simpl. auto.
     + inversion H; subst. split; [exact I|split; [apply hext_refl|]]. simpl. auto.
-    + destruct (cache_read lv p) eqn:E.
+    + destruct (cache_read fl lv p) eqn:E.
       * inversion H; subst. split; [exact I|split; [apply hext_refl|]]. simpl. repeat split; auto.
         eapply cache_read_ok; eauto.
       * destruct lv; inversion H; subst; (split; [exact I|split; [apply hext_refl|]]); simpl;
@@ -1279,11 +1317,15 @@ Proof.
   - rewrite nth_set_nth_neq in Hj by assumption. eapply thread_ok_ext; eauto.
 Qed.
 
-Lemma DInv_init fl c fs qs : forallb creq_ok qs = true -> DInv fl c fs (cinit fl qs).
+Definition cqsok (fl : flavour) (qs : list creq) : Prop := inj_key fl = true \/ forallb creq_ok qs = true.
+
+Lemma DInv_init fl c fs qs : cqsok fl qs -> DInv fl c fs (cinit fl qs).
 Proof.
   intros Hq. split. apply PInv_init. intros t th H. simpl in H. rewrite nth_error_map in H.
   destruct (nth_error qs t) as [q|] eqn:E; try discriminate. inversion H; subst; clear H.
-  rewrite forallb_forall in Hq. pose proof (Hq q (nth_error_In _ _ E)) as Q.
+  assert (Q : inj_key fl = true \/ creq_ok q = true).
+  { destruct Hq as [Hq|Hq]; [left; exact Hq|right].
+    rewrite forallb_forall in Hq. apply (Hq q (nth_error_In _ _ E)). }
   destruct q as [|l|l [|x v]]; simpl; auto; repeat split; auto;
     unfold start; destruct (locked_fast fl); exact Logic.I.
 Qed.
@@ -1292,7 +1334,7 @@ Lemma creq_spec_specd fs q : creq_spec fs q = of_opt (creq_specd fs q).
 Proof. destruct q as [|l|l [|x v]]; reflexivity. Qed.
 
 Theorem conc_answers fl c fs qs sched t q r :
-  forallb creq_ok qs = true ->
+  cqsok fl qs ->
   nth_error (cthr (crun fl c fs sched (cinit fl qs))) t = Some (TDone q r) ->
   obs_of (cp (crun fl c fs sched (cinit fl qs))) r = creq_spec fs q.
 Proof.
@@ -1317,8 +1359,8 @@ Proof.
   - destruct st as [|[lv ph] rest]; try discriminate.
     destruct ph as [| | |[i|]| | | |sb|r]; try discriminate;
       try (inversion H; subst; try apply ret_req; reflexivity).
-    + destruct (cache_read lv p); inversion H; subst; try apply ret_req; reflexivity.
-    + destruct (cache_read lv p); [|destruct lv]; inversion H; subst; reflexivity.
+    + destruct (cache_read fl lv p); inversion H; subst; try apply ret_req; reflexivity.
+    + destruct (cache_read fl lv p); [|destruct lv]; inversion H; subst; reflexivity.
     + destruct (build fl c fs lv sb p). inversion H; subst. reflexivity.
   - destruct (handout fl c (p, r)). inversion H; subst. reflexivity.
 Qed.
@@ -1357,11 +1399,11 @@ Qed.
 (* ------------------------------------------------------------------------------------------ *)
 (** * Statements in the property's own words *)
 
-Lemma good_html_now : good html_now. Proof. intros _. reflexivity. Qed.
-Lemma good_text_now : good text_now. Proof. intros H. discriminate H. Qed.
+Lemma good_html_now : good html_now. Proof. split; [intros _|]; reflexivity. Qed.
+Lemma good_text_now : good text_now. Proof. split; [intros H; discriminate H|reflexivity]. Qed.
 
 Theorem layers fl c fs qs i l v Hd Ld Vd :
-  good fl -> forallb req_ok qs = true -> nth_error qs i = Some (RView l v) -> v <> [] ->
+  good fl -> nth_error qs i = Some (RView l v) -> v <> [] ->
   dir_defs (helper_files fs) = Some Hd ->
   dir_defs (layout_files fs (defname l)) = Some Ld ->
   dir_defs (view_files fs v) = Some Vd ->
@@ -1371,19 +1413,19 @@ Theorem layers fl c fs qs i l v Hd Ld Vd :
                            | None => match lookup n Ld with Some b => Some b | None => lookup n Hd end
                            end.
 Proof.
-  intros Gf Hq Hi Hv H1 H2 H3. exists (Vd ++ Ld ++ Hd). split.
+  intros [Gf Gk] Hi Hv H1 H2 H3. pose proof (or_introl Gk : qsok fl qs) as Hq. exists (Vd ++ Ld ++ Hd). split.
   - rewrite (answers_pure fl c fs qs i _ Gf Hq Hi eq_refl). simpl.
     destruct v; try congruence. rewrite (view_spec_layers fs _ _ Hd Ld Vd H1 H2 H3). reflexivity.
   - intros n. rewrite !lookup_app. reflexivity.
 Qed.
 
 Theorem layers_err fl c fs qs i l v :
-  good fl -> forallb req_ok qs = true -> nth_error qs i = Some (RView l v) ->
+  good fl -> nth_error qs i = Some (RView l v) ->
   (v = [] \/ dir_defs (helper_files fs) = None \/ dir_defs (layout_files fs (defname l)) = None \/
    dir_defs (view_files fs v) = None) ->
   nth_error (run_obs fl c fs qs) i = Some OErr.
 Proof.
-  intros Gf Hq Hi H. rewrite (answers_pure fl c fs qs i _ Gf Hq Hi eq_refl). simpl.
+  intros [Gf Gk] Hi H. pose proof (or_introl Gk : qsok fl qs) as Hq. rewrite (answers_pure fl c fs qs i _ Gf Hq Hi eq_refl). simpl.
   destruct v as [|x v]; auto. destruct H as [H|H]; try discriminate.
   unfold dir_defs in H. unfold view_spec, layout_spec, base_spec.
   destruct (parse_files (helper_files fs) []) as [Hd|]; auto.
@@ -1395,12 +1437,12 @@ Proof.
 Qed.
 
 Theorem isolation fl c fs qs i q n v1 :
-  good fl -> forallb req_ok qs = true -> nth_error qs i = Some q ->
+  good fl -> nth_error qs i = Some q ->
   only_in_view fs n v1 ->
   match q with RBase | RLayout _ => True | RView _ v2 => v2 <> v1 | RExec _ => False end ->
   exists o, nth_error (run_obs fl c fs qs) i = Some o /\ absent n o.
 Proof.
-  intros Gf Hq Hi (_ & Hh & Hl & Hv) Hc. exists (spec_req fs [] q). split.
+  intros [Gf Gk] Hi (_ & Hh & Hl & Hv) Hc. pose proof (or_introl Gk : qsok fl qs) as Hq. exists (spec_req fs [] q). split.
   - apply answers_pure; auto. destruct q; auto.
   - destruct q as [|l|l v2|k]; simpl in *; try contradiction.
     + destruct (base_spec fs) eqn:E; simpl; auto. eapply base_spec_absent; eauto.
@@ -1411,42 +1453,51 @@ Proof.
 Qed.
 
 Theorem cache_transparent fl fs qs :
-  good fl -> forallb req_ok qs = true -> run_obs fl true fs qs = run_obs fl false fs qs.
-Proof. intros Gf H. rewrite !(run_spec fl _ fs qs Gf H). reflexivity. Qed.
+  good fl -> run_obs fl true fs qs = run_obs fl false fs qs.
+Proof. intros [Gf Gk]. rewrite !(run_spec fl _ fs qs Gf (or_introl Gk)). reflexivity. Qed.
 
 Theorem providers_agree c c' fs qs :
-  forallb req_ok qs = true -> run_obs html_now c fs qs = run_obs text_now c' fs qs.
+  run_obs html_now c fs qs = run_obs text_now c' fs qs.
 Proof.
-  intros H. rewrite (run_spec html_now c fs qs good_html_now H), (run_spec text_now c' fs qs good_text_now H).
+  rewrite (run_spec html_now c fs qs (proj1 good_html_now) (or_introl eq_refl)),
+          (run_spec text_now c' fs qs (proj1 good_text_now) (or_introl eq_refl)).
   reflexivity.
 Qed.
 
+(** the pre-7035bfe key is also fine as long as layout names contain no ':' *)
+Theorem run_spec_oldkey fl c fs qs :
+  good_clone fl -> forallb req_ok qs = true -> run_obs fl c fs qs = spec_run fs qs.
+Proof. intros Gf H. apply run_spec; auto. right. exact H. Qed.
+
+Theorem run_spec_good fl c fs qs : good fl -> run_obs fl c fs qs = spec_run fs qs.
+Proof. intros [Gf Gk]. apply run_spec; auto. left. exact Gk. Qed.
+
 Theorem twice fl c fs qs i j q :
-  good fl -> forallb req_ok qs = true -> nth_error qs i = Some q -> nth_error qs j = Some q ->
+  good fl -> nth_error qs i = Some q -> nth_error qs j = Some q ->
   pure_req q = true -> nth_error (run_obs fl c fs qs) i = nth_error (run_obs fl c fs qs) j.
 Proof.
-  intros Gf H Hi Hj Hp.
+  intros [Gf Gk] Hi Hj Hp. pose proof (or_introl Gk : qsok fl qs) as H.
   rewrite (answers_pure fl c fs qs i q Gf H Hi Hp), (answers_pure fl c fs qs j q Gf H Hj Hp). reflexivity.
 Qed.
 
 Theorem conc_answers_full fl c fs qs sched t q r :
-  forallb creq_ok qs = true ->
+  inj_key fl = true ->
   nth_error (cthr (crun fl c fs sched (cinit fl qs))) t = Some (TDone q r) ->
   nth_error qs t = Some q /\ obs_of (cp (crun fl c fs sched (cinit fl qs))) r = creq_spec fs q.
 Proof.
   intros Hq H. split.
   - pose proof (conc_reqs fl c fs qs sched) as R. rewrite <- R.
     rewrite nth_error_map, H. reflexivity.
-  - eapply conc_answers; eauto.
+  - eapply conc_answers; eauto. left. exact Hq.
 Qed.
 
 Theorem conc_equal fl c fs qs sched t1 t2 q r1 r2 :
-  forallb creq_ok qs = true ->
+  inj_key fl = true ->
   let s := crun fl c fs sched (cinit fl qs) in
   nth_error (cthr s) t1 = Some (TDone q r1) -> nth_error (cthr s) t2 = Some (TDone q r2) ->
   obs_of (cp s) r1 = obs_of (cp s) r2.
 Proof.
   intros Hq s H1 H2. unfold s in *.
-  rewrite (conc_answers fl c fs qs sched t1 q r1 Hq H1), (conc_answers fl c fs qs sched t2 q r2 Hq H2).
+  rewrite (conc_answers fl c fs qs sched t1 q r1 (or_introl Hq) H1), (conc_answers fl c fs qs sched t2 q r2 (or_introl Hq) H2).
   reflexivity.
 Qed.
